@@ -55,6 +55,15 @@ TIMED = [['DELAY', 1], ['DELAY', 2]] + [['EQ', t] for t in (-1, 0, 1, 2)] + [['G
 BODIES = [[], [['D', 1]], [['D', 2]], [['D', 3]], [['ETERNITY']], [['D', 1], ['D', 1]],
           [['DO', 'c', [['D', 2], ['PROBE', 'now']]]], [['DO', 'c', [['ETERNITY']]], ['D', 1]],
           [['DO', 'c', [['D', 1], ['D', 1], ['D', 1]], {'volatile': True}], ['D', 2]]]
+# bodies whose children are closed in special situations; only the owner's own operations are compared with the clock model
+LOOSE_BODIES = [
+    [['DO', 'c', [['FINALLY', [['D', 3]], [['TRY', [['DO', 'fs', [['D', 1], ['PROBE', 'now']], {'scope': 'u'}]]]]]]], ['D', 3]],
+    [['DO', 'c', [['D', 1], ['PROBE', 'now']], {'after': 2}], ['D', 3]],
+    [['DO', 'c', [['D', 1], ['PROBE', 'now']], {'at': 2}], ['ETERNITY']],
+    [['DO', 'c', [['INTERVAL', 1, 5, [[], [], [], [], []]]]], ['D', 4]],
+    [['DO', 'c', [['DELAYLOOP', 2, 3, [[], [], []]]], {'volatile': True}], ['D', 3]],
+    [['DO', 'c', [['INTERVAL', 2, 3, [[['D', 1]], [], []]]], {'after': 1}], ['ETERNITY']],
+]
 TAILS = [[['D', 1]], [['D', 3]]]
 
 
@@ -80,6 +89,13 @@ def cases(tier):
                 for body in BODIES:
                     for tail in TAILS[:1] if not thorough else TAILS:
                         out.append(program(pre, n, body, tail, h))
+    for pre in pres:
+        for n in TIMED + [NOTIFS['flag'][0]]:
+            for body in LOOSE_BODIES:
+                for h in (('A@1', 'A@2') if n[0] == 'F' else ('none',)):
+                    p = program(pre, n, body, [['D', 5]], h)
+                    p['_loose'] = True
+                    out.append(p)
     # nested until: equal / earlier / later deadlines, and the very same flag object
     nest_n = [['DELAY', 1], ['DELAY', 2], ['EQ', 1], ['EQ', 2], ['GE', 1], ['GE', 2], ['F', 'A'], ['T', 'X', '>=', 1]]
     for n1, n2 in itertools.product(nest_n, nest_n):
@@ -193,7 +209,8 @@ def check_exec(program, faults=()):
             model_holder[0] = self
             super().__init__(*a, **kw)
     model = M(program, resolver=resolver)
-    msgs = judge_times(model, ctx.log)
+    only = (lambda act, pc: act == 'owner' and len(pc) == 1) if program.get('_loose') else None
+    msgs = judge_times(model, ctx.log, only=only)
     log = ctx.log
     # the block raises nothing into the script when its own notification ended it
     for idx, (kind, act, pc, now, data) in enumerate(log):
